@@ -4,6 +4,7 @@
    to the Go code by the correspondence run of harness/cmd/c17); the decoders
    dec2, dec3, tz_dec, semi_dec, dst_dec, unpack7 and the table ambr_code are
    C17/Spec.v, written from TS 24.008 / TS 24.501 / TS 23.040 / TS 23.038. *)
+From NV Require C19.Globals.
 From NV Require Import Lib.Base C17.Model C17.Spec C17.Proofs.
 Open Scope N_scope.
 
@@ -214,6 +215,14 @@ Proof. exact DecodeUniversalTime_total. Qed.
 Theorem C17_tz_text_domain : forall s, (length s < 6)%nat -> parseTimeZoneToNas s = Panic.
 Proof. exact parseTimeZoneToNas_short. Qed.
 
+(* the functions this property is about are functions of their arguments: the files it is anchored in declare
+   no package-level variable other than the pinned read-only tables (or a never-touched one of plain type) and
+   none of their functions writes, slices, takes the address of, passes on or calls a method of a
+   package-level variable (logger entries excepted) -- evaluated on the current source (C19/Globals.v) *)
+Theorem C17_anchor_files_keep_no_state :
+  Globals.hidden_state_free Globals.anchors_C17 = true.
+Proof. vm_compute. reflexivity. Qed.
+
 Print Assumptions C17_timer2_exact.
 Print Assumptions C17_timer2_no_overshoot.
 Print Assumptions C17_timer2_above_range.
@@ -232,3 +241,4 @@ Print Assumptions C17_spec_gsm7_roundtrip.
 Print Assumptions C17_decoders_total.
 Print Assumptions C17_decode_timestamp_total.
 Print Assumptions C17_tz_text_domain.
+Print Assumptions C17_anchor_files_keep_no_state.
